@@ -276,6 +276,20 @@ def option_case(args):
                 if got[1] != ref[1]:
                     d.append(('ram', [a + 16384 for a in range(49152) if got[1][a] != ref[1][a]][:4]))
                 return ('snapshot differs', desc, d[:6])
+        if k % 3 == 0:
+            # with contention simulation the choice of simulator still must not matter (acceleration is off under cmio=1,
+            # whatever the accelerator options say)
+            c0, o0 = load(['cmio=1', 'fast-load=0'])
+            c1, o1_ = load(['cmio=1', 'fast-load=0', 'python=1', 'accelerate-dec-a=%d' % rnd.randrange(4)])
+            desc = 'seed=%s/%s org=%d len=%d %s config=cmio=1 fast-load=0: python=0 against python=1' % (seed, k, org, L, ext)
+            if c0 is None or c1 is None:
+                return ('load failed', desc, o0 if c0 is None else o1_)
+            if c0 != c1:
+                names = ('a', 'f', 'bc', 'de', 'hl', 'a2', 'f2', 'bc2', 'de2', 'hl2', 'ix', 'iy', 'sp', 'i', 'r', 'pc', 'iff', 'im', 'border', 'tstates')
+                d = [(names[i], c1[0][i], c0[0][i]) for i in range(len(names)) if c1[0][i] != c0[0][i]]
+                if c1[1] != c0[1]:
+                    d.append(('ram', [a + 16384 for a in range(49152) if c1[1][a] != c0[1][a]][:4]))
+                return ('snapshot differs', desc, d[:6])
         # fast-load / cmio may change scratch state but not the loaded bytes, PC, SP
         cfg = rnd.choice((['fast-load=1'], ['cmio=1', 'fast-load=0', 'accelerator=none']))
         got, o = load(cfg)
